@@ -16,6 +16,7 @@ import (
 	"github.com/MixinNetwork/mixin/storage"
 	"github.com/MixinNetwork/mixin/verifmc"
 	"github.com/MixinNetwork/mixin/verifmc/fixc"
+	"github.com/dgraph-io/ristretto/v2"
 )
 
 // C10 — any two threshold certificates share more than a third of the signer
@@ -80,13 +81,17 @@ var (
 	c10KeysOnce sync.Once
 	c10Signers  []common.Address
 	c10Payees   []common.Address
+	c10Privs    = map[crypto.Key]*crypto.Key{} // public spend key -> private spend key
 )
 
 // who indexes: 0..49 base, 50.. a, 53.. m, 56.. o, 59.. cancelled, 62 pledging
 func c10Keys() {
 	c10KeysOnce.Do(func() {
 		for i := 0; i < 64; i++ {
-			c10Signers = append(c10Signers, fixc.Pub(fixc.NodeAddr(fmt.Sprintf("c10-signer-%d", i))))
+			full := fixc.NodeAddr(fmt.Sprintf("c10-signer-%d", i))
+			priv := full.PrivateSpendKey
+			c10Privs[full.PublicSpendKey] = &priv
+			c10Signers = append(c10Signers, fixc.Pub(full))
 			c10Payees = append(c10Payees, fixc.Pub(fixc.NodeAddr(fmt.Sprintf("c10-payee-%d", i))))
 		}
 	})
@@ -252,7 +257,7 @@ func TestMC_C10(t *testing.T) {
 	}
 	flavours := verifmc.Pick(c,
 		[]flavour{
-			{0, true, true, [5]int{3, 3, 2, 2, 2}}, {0, true, false, [5]int{3, 2, 1, 1, 1}}, {0, false, true, [5]int{2, 2, 2, 2, 2}},
+			{0, true, true, [5]int{3, 3, 2, 2, 2}}, {0, true, false, [5]int{3, 2, 1, 1, 1}}, {0, false, true, [5]int{2, 2, 2, 2, 1}},
 			{1, true, true, [5]int{2, 2, 1, 2, 1}}, {2, true, true, [5]int{2, 2, 1, 2, 1}}},
 		[]flavour{
 			{0, true, true, [5]int{4, 4, 4, 4, 4}}, {0, true, false, [5]int{4, 4, 4, 4, 4}}, {0, false, true, [5]int{3, 3, 3, 3, 3}}, {0, false, false, [5]int{3, 3, 3, 3, 3}},
@@ -264,7 +269,9 @@ func TestMC_C10(t *testing.T) {
 	c.SetRule(fmt.Sprintf("full product per flavour (network {non-mainnet id, mainnet id after / before the signer-set fork}, base nodes genesis-marked or accepted long ago) of: base nodes n in 7..50 x additional accepted nodes per maturity class {a: <=30 s, m: 30 s..12 h, o: >12 h} x removed base nodes r x pledged-then-cancelled nodes c (count ranges {a,m,o,r,c} per flavour: %v) x pledging node {none, pledged 1 h ago, 13 h ago}, reference instant 15:30 (inside the 13..19 window) or 21:30 (outside) of day 200, accepted total <= 50; each configuration is queried at 11 timestamps (reference instant +-1 ns, +30 s, +12 h, +1 day, window start -1/0/+1 ns, window end last ns / first ns after) on an ordinary chain (round 1) and, while the pledging node is pledging, on its chain's round 0; plus one real 7-node fixture node with a really finalized pledge; distinct by (configuration, chain kind)", fl))
 	c.Assume("membership of the synthetic configurations is installed by the real LoadConsensusNodes over a stub storage.Store returning synthetic records (over-approximates reachable histories)",
 		"effective membership (used for the below-minimum clause and for naming the failing class only) = accepted nodes that are genesis or accepted more than 30 s before the timestamp, minus the node the real removingOrSlashingNodeAt predicts when the real fork gate is on",
-		"the intersection inequality itself is evaluated on the values returned by the real ConsensusThreshold and ConsensusKeys only")
+		"the intersection inequality itself is evaluated on the values returned by the real ConsensusThreshold and ConsensusKeys only",
+		"certificate part: honest CoSi certificates (real crypto) of every popcount around the thresholds are presented to the real verifyFinalization of a node that has finalized a removal; accepted => 3*(2*popcount-|K_used|) > |K_used| with K_used the key vector whose ids at the mask positions are the returned signers",
+		"schedule part: cooperative scheduler, one scheduling point before every top-level statement of LoadConsensusNodes and between the verifier's two reads; preemption bound 3")
 
 	// ---- configurations ----
 	var cfgs []c10Config
@@ -420,6 +427,12 @@ func TestMC_C10(t *testing.T) {
 	// ---- real fixture: 7-node genesis, then a really finalized pledge ----
 	c10Real(c, outcomes, tuples)
 
+	// ---- the (threshold, key vector) pair verifyFinalization really uses ----
+	c10Certificates(c, nets, outcomes)
+
+	// ---- membership reload racing a verifier (schedule exploration) ----
+	c10ReloadRace(c, nets, outcomes)
+
 	for k, n := range outcomes {
 		c.Outcome(k) // classes; case counts are under count:<class>
 		c.Set("count:"+k, n)
@@ -436,6 +449,9 @@ func TestMC_C10(t *testing.T) {
 		"ordinary:intersection-ok", "ordinary:below-minimum:unreachable-threshold", "round0-pledging:intersection-ok",
 		"shape:in-window:candidate", "shape:in-window:no-candidate", "shape:out-window:no-candidate",
 		"real:ordinary:intersection-ok",
+		"cert:mainnet-prefork:legacy-retry:accepted", "cert:mainnet-prefork:signer-view:rejected", "cert:mainnet-prefork:current:accepted",
+		"cert:testnet:current:accepted", "cert:mainnet-postfork:current:accepted",
+		"race:threshold-then-keys:ok", "race:mixed-view-observed",
 	}
 	for _, k := range need {
 		c.Require(outcomes[k] > 0, "outcome class %q never reached (%v)", k, outcomes)
@@ -535,4 +551,308 @@ func c10Real(c *verifmc.Check, outcomes map[string]int64, tuples map[string]stru
 		judge("round0-pledging", pc, 0, ts, pid, fmt.Sprintf("pledge+%d", off))
 	}
 	c.Require(outcomes["real:round0-pledging:intersection-ok"]+outcomes["real:round0-pledging:intersection-FAIL:round0-pledging:bmod3=1"] > 0, "real pledging chain never judged: %v", outcomes)
+}
+
+// c10Cert builds an honest CoSi certificate over the key vector (ids, publics)
+// signed by exactly the given positions.
+func c10Cert(chainId crypto.Hash, ts uint64, label string, publics []*crypto.Key, positions []int) (*common.Snapshot, error) {
+	snap := &common.Snapshot{
+		Version:      common.SnapshotVersionCommonEncoding,
+		NodeId:       chainId,
+		RoundNumber:  1,
+		Timestamp:    ts,
+		Transactions: []crypto.Hash{crypto.Blake3Hash([]byte(label))},
+	}
+	snap.Hash = snap.PayloadHash()
+	nonces := map[int]*crypto.CosiNonce{}
+	commitments := map[int]*crypto.Key{}
+	for _, i := range positions {
+		n := crypto.CosiCommitNonce(crypto.RandReader())
+		pub := n.Public()
+		nonces[i], commitments[i] = n, &pub
+	}
+	sig, err := crypto.CosiAggregateCommitment(commitments)
+	if err != nil {
+		return nil, err
+	}
+	responses := map[int]*[32]byte{}
+	for _, i := range positions {
+		priv := c10Privs[*publics[i]]
+		if priv == nil {
+			return nil, fmt.Errorf("no private key for position %d", i)
+		}
+		r, err := nonces[i].Response(sig, priv, publics, snap.Hash)
+		if err != nil {
+			return nil, err
+		}
+		responses[i] = r
+	}
+	if err := sig.AggregateResponse(publics, responses, snap.Hash, false); err != nil {
+		return nil, err
+	}
+	snap.Signature = sig
+	return snap, nil
+}
+
+func c10SameIds(a, b []crypto.Hash) bool {
+	if len(a) != len(b) {
+		return false
+	}
+	for i := range a {
+		if a[i] != b[i] {
+			return false
+		}
+	}
+	return true
+}
+
+func c10NewCache() *ristretto.Cache[[]byte, any] {
+	cache, err := ristretto.NewCache(&ristretto.Config[[]byte, any]{NumCounters: 1e3, MaxCost: 1 << 20, BufferItems: 64})
+	if err != nil {
+		panic(err)
+	}
+	return cache
+}
+
+// c10Certificates: a signer node that has not seen the removal of the oldest
+// node (13:00:30 of the query day) and a verifier node that has. Honest
+// certificates over the signer's and over the verifier's key vector, with
+// every popcount from two below the smaller to one above the larger of the two
+// thresholds (lowest and highest positions), are presented to the verifier's
+// real verifyFinalization at four instants. Whatever is accepted must satisfy
+// the intersection inequality for the key vector it was verified against.
+func c10Certificates(c *verifmc.Check, nets []c10Net, outcomes map[string]int64) {
+	type job struct {
+		net, n int
+	}
+	var jobs []job
+	for ni := range nets {
+		for n := 8; n <= 50; n++ {
+			if ni != 2 && !c.Thorough() && n > 13 && n < 49 {
+				continue // quick: the legacy-retry flavour gets every n, the two others the small and the largest sizes
+			}
+			jobs = append(jobs, job{ni, n})
+		}
+	}
+	var mu sync.Mutex
+	c.ParallelN(len(jobs), "certificates", func(_, ji int) {
+		j := jobs[ji]
+		net := nets[j.net]
+		d0 := net.epoch + c10QueryDay*c10Day
+		w := d0 + 13*c10Hour
+		removalAt := w + c10Mature
+		var base []c10Rec
+		for i := 0; i < j.n; i++ {
+			base = append(base, c10Rec{i, net.epoch, common.NodeStateAccepted})
+		}
+		S, err := c10BuildNode(net, base, true)
+		if err != nil {
+			c.Require(false, "certificate signer node: %v", err)
+			return
+		}
+		oldest := S.NodesListWithoutState(w, true)[0].IdForNetwork
+		who := -1
+		for i := 0; i < j.n; i++ {
+			if c10Signers[i].Hash().ForNetwork(net.id) == oldest {
+				who = i
+			}
+		}
+		V, err := c10BuildNode(net, append(append([]c10Rec{}, base...), c10Rec{who, removalAt, common.NodeStateRemoved}), true)
+		if err != nil || who < 0 {
+			c.Require(false, "certificate verifier node: %v", err)
+			return
+		}
+		S.cacheStore, V.cacheStore = c10NewCache(), c10NewCache()
+		defer S.cacheStore.Close()
+		defer V.cacheStore.Close()
+		chainId := c10Signers[j.n-1].Hash().ForNetwork(net.id)
+		if chainId == oldest {
+			chainId = c10Signers[j.n-2].Hash().ForNetwork(net.id)
+		}
+		chS, chV := &Chain{node: S, ChainId: chainId}, &Chain{node: V, ChainId: chainId}
+		local := map[string]int64{}
+		var evals int64
+		for ti, ts := range []uint64{removalAt + c10Second, d0 + 15*c10Hour + 30*uint64(time.Minute), d0 + 20*c10Hour - 1, d0 + 20*c10Hour} {
+			idsS, pubS := chS.ConsensusKeys(1, ts)
+			idsV, pubV := chV.ConsensusKeys(1, ts)
+			tS, tV := S.ConsensusThreshold(ts, true), V.ConsensusThreshold(ts, true)
+			if tS > 64 || tV > 64 {
+				local["cert:"+net.name+":below-minimum-skipped"]++
+				continue
+			}
+			lo, hi := min(tS, tV)-2, max(tS, tV)+1
+			type vec struct {
+				name string
+				ids  []crypto.Hash
+				pubs []*crypto.Key
+			}
+			vecs := []vec{{"verifier-view", idsV, pubV}}
+			if !c10SameIds(idsS, idsV) {
+				vecs = append(vecs, vec{"signer-view", idsS, pubS})
+			}
+			for _, v := range vecs {
+				for p := max(lo, 1); p <= hi && p <= len(v.ids); p++ {
+					for shape := 0; shape < 2; shape++ {
+						positions := make([]int, p)
+						for i := range positions {
+							positions[i] = i
+							if shape == 1 {
+								positions[i] = len(v.ids) - p + i
+							}
+						}
+						label := fmt.Sprintf("c10-cert|%s|%d|%d|%s|%d|%d", net.name, j.n, ti, v.name, p, shape)
+						snap, err := c10Cert(chainId, ts, label, v.pubs, positions)
+						if err != nil {
+							c.Require(false, "cannot sign %s: %v", label, err)
+							continue
+						}
+						var signers []crypto.Hash
+						finalized := false
+						if pv := verifmc.Catch(func() { signers, finalized = chV.verifyFinalization(snap) }); pv != nil {
+							c.Require(false, "verifyFinalization panicked on %s: %v", label, pv)
+							continue
+						}
+						evals++
+						c.Distinct(label)
+						if !finalized {
+							local["cert:"+net.name+":"+v.name+":rejected"]++
+							continue
+						}
+						// the vector the certificate was verified against
+						used, path := []crypto.Hash(nil), ""
+						for _, cand := range []vec{v, vecs[0], vecs[len(vecs)-1]} {
+							ok := len(signers) == p
+							for i := 0; ok && i < p; i++ {
+								ok = positions[i] < len(cand.ids) && cand.ids[positions[i]] == signers[i]
+							}
+							if ok {
+								used = cand.ids
+								break
+							}
+						}
+						if used == nil {
+							c.Require(false, "%s accepted but the returned signers match neither key vector", label)
+							continue
+						}
+						if c10SameIds(used, idsV) {
+							path = "current"
+						} else {
+							path = "legacy-retry"
+						}
+						k := len(used)
+						local["cert:"+net.name+":"+path+":accepted"]++
+						if !(3*(2*p-k) > k) {
+							key := "verify:" + path + ":threshold-too-low"
+							local["cert:"+net.name+":"+path+":accepted-FAIL"]++
+							c.Violation(key, fmt.Sprintf("%s n=%d ts#%d: verifyFinalization of a node that has finalized the removal accepts an honest certificate of %d signers over the %s key vector of %d keys (current vector %d keys, current threshold %d, signer-side threshold %d): two such certificates may share only %d signers, not more than |K|/3", net.name, j.n, ti, p, v.name, k, len(idsV), tV, tS, 2*p-k),
+								map[string]any{"net": net.name, "n": j.n, "timestamp": ts, "epoch": net.epoch, "removal_at": removalAt, "vector": v.name, "popcount": p, "positions": positions, "K_used": k, "K_current": len(idsV), "T_current": tV, "T_signer": tS})
+						}
+					}
+				}
+			}
+		}
+		c.Eval(evals)
+		mu.Lock()
+		for k, n := range local {
+			outcomes[k] += n
+		}
+		mu.Unlock()
+	})
+}
+
+// c10ReloadRace explores the schedules of the real LoadConsensusNodes (run
+// after a removal record reached the store) against a verifier that reads the
+// threshold and the key vector of an ordinary chain for a timestamp after the
+// removal. Every pair a verifier can observe must satisfy the inequality.
+func c10ReloadRace(c *verifmc.Check, nets []c10Net, outcomes map[string]int64) {
+	type scen struct {
+		net, n int
+		tsName string
+		order  string // threshold-then-keys | keys-then-threshold
+	}
+	var scens []scen
+	for ni := range nets {
+		for _, n := range []int{9, 10, 11} {
+			for _, tn := range []string{"in-window", "after-window", "next-night"} {
+				for _, o := range []string{"threshold-then-keys", "keys-then-threshold"} {
+					scens = append(scens, scen{ni, n, tn, o})
+				}
+			}
+		}
+	}
+	instrumented := false
+	for _, sc := range scens {
+		sc := sc
+		net := nets[sc.net]
+		d0 := net.epoch + c10QueryDay*c10Day
+		removalAt := d0 + 13*c10Hour + c10Mature
+		ts := map[string]uint64{"in-window": d0 + 15*c10Hour, "after-window": d0 + 20*c10Hour + c10Second, "next-night": d0 + 27*c10Hour}[sc.tsName]
+		var base []c10Rec
+		for i := 0; i < sc.n; i++ {
+			base = append(base, c10Rec{i, net.epoch, common.NodeStateAccepted})
+		}
+		name := fmt.Sprintf("reload|%s|n=%d|%s|%s", net.name, sc.n, sc.tsName, sc.order)
+		ex := &verifmc.Explorer{C: c, Bound: 3, Name: name}
+		ex.Body = func(s *verifmc.Sched, report func(key, desc string)) string {
+			node, err := c10BuildNode(net, base, true)
+			if err != nil {
+				panic(err)
+			}
+			oldest := node.NodesListWithoutState(removalAt, true)[0]
+			st := node.persistStore.(*c10Store)
+			st.nodes = append(st.nodes, &common.Node{Signer: oldest.Signer, Payee: oldest.Payee, State: common.NodeStateRemoved,
+				Transaction: crypto.Blake3Hash([]byte("c10-race-removal")), Timestamp: removalAt})
+			chain := &Chain{node: node, ChainId: c10Signers[sc.n-1].Hash().ForNetwork(net.id)}
+			var T, K int
+			s.Go("reload", func() {
+				if err := node.LoadConsensusNodes(); err != nil {
+					panic(err)
+				}
+			})
+			s.Go("verify", func() {
+				if sc.order == "threshold-then-keys" {
+					T = node.ConsensusThreshold(ts, true)
+					verifmc.Yield()
+					ids, _ := chain.ConsensusKeys(1, ts)
+					K = len(ids)
+				} else {
+					ids, _ := chain.ConsensusKeys(1, ts)
+					K = len(ids)
+					verifmc.Yield()
+					T = node.ConsensusThreshold(ts, true)
+				}
+			})
+			for _, p := range s.RunAll() {
+				if p != nil {
+					report("reload-race:panic", fmt.Sprintf("%s: %v", name, p))
+					return "panic"
+				}
+			}
+			out := fmt.Sprintf("T=%d,K=%d", T, K)
+			if T <= 64 && !(3*(2*T-K) > K) {
+				report("reload-race:"+sc.order, fmt.Sprintf("%s: a verifier reading %s while LoadConsensusNodes installs the removal of the oldest node observes threshold %d with %d keys: two certificates may share only %d signers, not more than |K|/3", name, sc.order, T, K, 2*T-K))
+				return out + ":FAIL"
+			}
+			return out + ":ok"
+		}
+		ex.Run()
+		if ex.MaxPoints > 4 {
+			instrumented = true
+		}
+		views := 0
+		for o, n := range ex.Outcomes {
+			views++
+			if len(o) > 3 && o[len(o)-3:] == ":ok" {
+				outcomes["race:"+sc.order+":ok"] += n
+			} else {
+				outcomes["race:"+sc.order+":FAIL"] += n
+			}
+		}
+		if views > 1 {
+			outcomes["race:mixed-view-observed"]++
+		}
+		c.Add("race_executions", ex.Executions)
+	}
+	c.Set("race_scenarios", int64(len(scens)))
+	c.Require(instrumented, "LoadConsensusNodes offers no scheduling points (yield instrumentation of kernel/node.go missing)")
 }
